@@ -334,6 +334,33 @@ def check(prop, tier, seed, work, replay, t0):
 
     if os.environ.get("VERIF_TRIAGE"):
         triage(violations)
+    # a watchdog expiry under load is not a hang: every such case is executed again alone, with a 30 s watchdog
+    confirmed = []
+    for v in violations:
+        if v["fields"] == ["hang"] and v.get("file"):
+            if hang_reproduces(gopt, work, v["file"]):
+                confirmed.append(v)
+            else:
+                log("note: a case that exceeded the watchdog under load finished when run alone (%s)" % v["file"])
+        elif v["kind"] == "hang":
+            log("note: driver %s stopped at a watchdog expiry; the case is reported only if it reproduces alone" % v["job"])
+            tr = v["trace"]
+            last = None
+            try:
+                with open(tr) as f:
+                    lines = f.readlines()
+                dline = [l for l in lines if l.startswith('{"ev":"def"')][-1]
+                cline = [l for l in lines if l.startswith('{"ev":"case"')][-1]
+                rp = os.path.join(work, "hang-%s.json" % v["job"])
+                json.dump({"def": json.loads(dline), "case": json.loads(cline)}, open(rp, "w"))
+                if hang_reproduces(gopt, work, rp):
+                    v["file"] = rp
+                    confirmed.append(v)
+            except Exception:
+                pass
+        else:
+            confirmed.append(v)
+    violations = confirmed
     rc = 0
     reported = 0
     nviol = 0
@@ -393,6 +420,18 @@ def check(prop, tier, seed, work, replay, t0):
                    time.time() - t0, nviol)
     log("%s: %d cases validated, %d spec states, %d violations, %d known-finding cases (%.0fs)" % (prop, cases, states, nviol, sum(knownhits.values()), time.time() - t0))
     return rc
+
+
+def hang_reproduces(gopt, work, replay_file):
+    out = os.path.join(work, "hangcheck.ndjson")
+    env = dict(DRIVER_ENV, GOPT_TIMEOUT_S="30", GOPT_REPEAT="0")
+    p = subprocess.run([gopt, "rerun", "-in", replay_file, "-out", out], stdout=subprocess.PIPE, stderr=subprocess.STDOUT, text=True, env=env)
+    if p.returncode != 0:
+        return True   # it took the process down: certainly not fine
+    with open(out) as f:
+        f.readline()
+        c = json.loads(f.readline())
+    return bool(c["res"]["hang"])
 
 
 def triage(violations):
